@@ -432,7 +432,7 @@ func checkRouteLoops(p *Prog, r *Report) {
 		}
 		ok, why := true, ""
 		nUpd := 0
-		for _, s := range Paths(fn).From(H) {
+		for _, s := range PathsInl(fn).From(H) {
 			if s.End != H {
 				continue
 			}
@@ -469,7 +469,7 @@ func checkRouteLoops(p *Prog, r *Report) {
 			}
 			lt, dst, src := false, false, false
 			for _, fc := range s.Facts {
-				bo, isB := fc.Cond.(*ssa.BinOp)
+				bo, isB := s.Resolve(fc.Cond).(*ssa.BinOp) // a helper's boolean result resolves to the comparison it returned
 				if !isB {
 					continue
 				}
@@ -478,9 +478,9 @@ func checkRouteLoops(p *Prog, r *Report) {
 					continue
 				}
 				switch {
-				case fx == "Priority" && bo.Op == token.LSS && bo.Y == ssa.Value(minPhi) && fc.Truth:
+				case fx == "Priority" && bo.Op == token.LSS && s.Resolve(bo.Y) == ssa.Value(minPhi) && fc.Truth:
 					lt = true
-				case fx == "Priority" && bo.Op == token.GEQ && bo.Y == ssa.Value(minPhi) && !fc.Truth:
+				case fx == "Priority" && bo.Op == token.GEQ && s.Resolve(bo.Y) == ssa.Value(minPhi) && !fc.Truth:
 					lt = true
 				case fx == "Dst" && isNilConst(bo.Y) && (bo.Op == token.EQL) == fc.Truth:
 					dst = true
@@ -507,7 +507,7 @@ func checkRouteLoops(p *Prog, r *Report) {
 					ok, why = false, "the minimum is lowered but the candidate "+ph.Comment+" is not replaced"
 					continue
 				}
-				e := sxSeg(s, v, 0)
+				e := sxSeg(s, v, 0) + " | " + sx(v, 0) // as resolved on the path, and as written (through helper calls)
 				if !strings.Contains(e, "route.") && !strings.Contains(e, ".LinkIndex") && !strings.Contains(e, ".Gw") && !strings.Contains(e, "InterfaceByIndex") {
 					ok, why = false, "candidate "+ph.Comment+" is "+e+", not derived from the route that lowered the minimum"
 				}
